@@ -2,6 +2,7 @@ package main
 
 import (
 	"encoding/json"
+	"math/big"
 	"os"
 	"sort"
 	"strconv"
@@ -10,6 +11,27 @@ import (
 // Integer literals of the repository's sources (harvested by tools/gen_model into the file named by VERIF_LITERALS)
 // join the boundary tables of the generators, with their neighbours: behaviour keyed on a particular value that is
 // written in the code is then exercised, not only the values the generators' authors thought of.
+// wrapAliases: n with n*c = k*2^64 + (a small number) for the multipliers c a unit conversion uses; an overflow check
+// that looks at the wrong product lets exactly these through
+var wrapAliases = func() []uint64 {
+	var out []uint64
+	two64 := new(big.Int).Lsh(big.NewInt(1), 64)
+	for _, c := range []int64{60, 3600, 24, 1000} {
+		for k := int64(1); k <= 40 && k < c; k++ {
+			n := new(big.Int).Mul(two64, big.NewInt(k))
+			n.Add(n, big.NewInt(c-1))
+			n.Div(n, big.NewInt(c)) // ceil(k*2^64 / c)
+			for d := int64(0); d <= 2; d++ {
+				m := new(big.Int).Add(n, big.NewInt(d))
+				if m.IsUint64() {
+					out = append(out, m.Uint64())
+				}
+			}
+		}
+	}
+	return out
+}()
+
 var periodChoices = []uint64{0, 1, 2, 29, 30, 31, 60, 3600, 1 << 31, 1 << 32}
 
 func init() {
